@@ -37,6 +37,34 @@ size_t verif_strlen_ghost(const char* s);   /* provided by the harness: index of
     __CPROVER_assert(__CPROVER_OBJECT_SIZE(*pos) == POLYSEED_STR_SIZE, "write_str: destination is a polyseed_str"); \
     __CPROVER_assert(g_ws_S + g_ws_len < POLYSEED_STR_SIZE, "write_str: room for the string and a terminator (caller's obligation: phrase fits the buffer)"); \
     g_ws_snapk = (g_k < POLYSEED_STR_SIZE) ? ((*pos) - g_ws_S)[g_k] : 0; g_ws_calls++; } while (0)
+/* comparers (see loops.spec) */
+const char* g_c_key0;
+const char* g_c_elm0;
+size_t g_c_klen, g_c_elen;
+size_t g_c_exit_k, g_c_exit_e;
+unsigned g_c_exits;
+#define KO VOFF(key, g_c_key0)
+#define EO VOFF(elm, g_c_elm0)
+#define CMP_INB (__CPROVER_same_object(key, g_c_key0) && __CPROVER_same_object(elm, g_c_elm0) \
+    && KO <= g_c_klen && EO <= g_c_elen && g_c_key0[g_c_klen] == '\0' && g_c_elm0[g_c_elen] == '\0')
+#define CMP_ENTRY do { g_c_key0 = key; g_c_elm0 = elm; g_c_klen = verif_strlen_ghost(key); g_c_elen = verif_strlen_ghost(elm); } while (0)
+#define CMP_EXIT (g_c_exit_k = KO, g_c_exit_e = EO, g_c_exits++)
+#define VERIF_ENTRY_compare_str CMP_ENTRY
+#define VERIF_ENTRY_compare_prefix CMP_ENTRY
+#define VERIF_ENTRY_compare_str_noaccent CMP_ENTRY
+#define VERIF_ENTRY_compare_prefix_noaccent CMP_ENTRY
+#define VERIF_EXIT_compare_str CMP_EXIT
+#define VERIF_EXIT_compare_prefix CMP_EXIT
+#define VERIF_EXIT_compare_str_noaccent CMP_EXIT
+#define VERIF_EXIT_compare_prefix_noaccent CMP_EXIT
+/* lang_search: arbitrary but fixed comparison outcomes of the key against element i (stub comparer) */
+signed char g_cmp[2048];
+/* polyseed_phrase_decode exit: the local index copy must be wiped (C16) */
+unsigned g_pd_exits;
+_Bool g_pd_idx_zero_at_exit;
+#define VERIF_EXIT_polyseed_phrase_decode do { _Bool z_ = 1; \
+    for (int i_ = 0; i_ < POLYSEED_NUM_WORDS; ++i_) if (idx[i_] != 0) z_ = 0; \
+    g_pd_idx_zero_at_exit = z_; g_pd_exits++; } while (0)
 /* utf8_nfkd_lazy exit recording */
 size_t g_lazy_size;
 unsigned g_lazy_exits;
